@@ -375,6 +375,17 @@ class CSemantics:
     # declaration insertion into symbol table.
     def register_declaration(self, declaration):
         """Register declaration into the scope."""
+        if (
+            self.in_compound
+            and declaration.storage_class == "extern"
+            and isinstance(declaration, declarations.VariableDeclaration)
+            and not self.scope.is_defined(declaration.name, all_scopes=False)
+        ):
+            # A block scope extern declaration refers to the object with
+            # linkage declared at file scope, it is not a new object.
+            self.register_block_scope_extern(declaration)
+            return
+
         # Check if the declared name is already defined:
         if self.scope.is_defined(declaration.name, all_scopes=False):
             # Get the already declared name and figure out what now!
@@ -402,6 +413,26 @@ class CSemantics:
                 declaration, declaration.location
             )
             self.add_statement(statement)
+
+    def register_block_scope_extern(self, declaration):
+        """Bind a block scope extern variable to the file scope symbol."""
+        file_scope = self.scope
+        while file_scope.parent is not None:
+            file_scope = file_scope.parent
+
+        name = declaration.name
+        if file_scope.is_defined(name, all_scopes=False):
+            sym = file_scope.get_identifier(name)
+            self.check_redeclaration_type(sym, declaration)
+            # The prior declaration remains the best one, it determines
+            # the linkage (C99 6.2.2) and may be a (tentative) definition.
+            sym.declarations.insert(0, declaration)
+        else:
+            file_scope.insert(declaration)
+            sym = file_scope.get_identifier(name)
+
+        # Make the name refer to the file scope symbol in this block:
+        self.scope.var_map[name] = sym
 
     def check_redeclaration_type(self, sym, declaration):
         # The type should match in any case:
